@@ -148,13 +148,28 @@ impl BlockWriter {
             return Ok(());
         }
 
+        if self.content_length_left == Some(0) {
+            // The whole content has been written, remaining bytes (trailer) are not needed
+            return Ok(());
+        }
+
         let mut offset: usize = 0;
+        let mut stalled = false;
         loop {
             let size = self.decoder.as_mut().unwrap().write(&pkt[offset..])?;
             self.decoder_read(writer, now)?;
             offset += size;
             if offset == pkt.len() {
                 break;
+            }
+            if size == 0 {
+                if stalled || self.content_length_left == Some(0) {
+                    // The decoder does not consume its input anymore (end of stream reached)
+                    break;
+                }
+                stalled = true;
+            } else {
+                stalled = false;
             }
         }
         Ok(())
